@@ -616,6 +616,7 @@ func (w *World) Run(idx int, it Item) (obs Obs) {
 	case "step":
 		if w.node == nil {
 			obs.Res = "not-running"
+			w.Or.missedRound(idx, it) // Cfg.Loop: responses that find no process because the loop halted the node
 			break
 		}
 		nd := w.node
